@@ -91,3 +91,94 @@ Definition vpop (v : list T) : res (list T * T) :=
   end.
 
 End Vec.
+
+(* ======================================================================================
+   Completion for C15 (package vec).  Everything above is unchanged (Matrix.v, Solve.v, ...
+   build on it).  Review of the definitions above against src/vector/*.rs (line by line):
+     vadd/vsub        arithmetic.rs:20-87   guard on sizes, then element-wise in index order        ok
+     vneg             arithmetic.rs:6-17                                                          ok
+     vscale/vscale_l  arithmetic.rs:89-113  x*s  resp.  s*x  (operand order as written)           ok
+     vdiv             arithmetic.rs:115-125 x/s in index order: the first element decides a panic  ok
+     compound forms   arithmetic.rs:127-181 same element-wise expressions, guard first            ok
+     dot              functions.rs:38-46    result = 0; result += u[i]*w[i]                        ok
+     sum_slice        functions.rs:55-65    three guards in the code's order, inclusive range      ok
+     vsum/vproduct    functions.rs:49-52,68-71  size()-1 underflows on the empty vector (debug)    ok
+     product_slice    functions.rs:74-84    starts from vec[start], multiplies start+1..=end       ok
+     vabs/norm_1      functions.rs:87-107                                                         ok
+     vfind            functions.rs:8-15     first match, else size()-1 (underflow when empty)      ok
+     vassign/vresize  functions.rs:18-33    resize_with(Default::default): Default = zero for f64/Rat ok
+     vswap/vpush/vinsert/vpush_front/vpop  operations.rs:24-58  Vec::{swap,push,insert,pop}        ok
+   Missing and added below: clear, new/zeros/ones, index read/write, sort, linspace, powspace,
+   norm_2, norm_p, norm_inf (f64 and Complex<f64>), conj, real.
+   ====================================================================================== *)
+
+Section VecMore.
+Context {A : Arith}.
+Notation T := (T A).
+
+Definition vclear (v : list T) : list T := [].                 (* operations.rs:26 *)
+Definition vnew (n : nat) (x : T) : list T := repeat x n.       (* mod.rs:40-46 *)
+Definition vzeros (n : nat) : list T := repeat zero n.
+Definition vones (n : nat) : list T := repeat one n.
+Definition vget (v : list T) (i : nat) : res T := rd v i.       (* Index    operations.rs:4-11 *)
+Definition vset (v : list T) (i : nat) (x : T) : res (list T) := upd v i x.   (* IndexMut *)
+
+(* sort / sort_by delegate to Vec::sort_unstable(_by): an EXTERNAL call.  In the theorems the sorter is a
+   Section variable with its contract (returns a sorted permutation); to RUN the model the parameter is
+   instantiated by insertion sort on the element order -- any two sorted permutations of the same list agree
+   up to elements that compare equal (identical for canonical rationals; +0/-0 for floats). *)
+Fixpoint insert_by (le : T -> T -> bool) (x : T) (l : list T) : list T :=
+  match l with
+  | [] => [x]
+  | h :: t => if le x h then x :: l else h :: insert_by le x t
+  end.
+Definition isort (le : T -> T -> bool) (l : list T) : list T := fold_right (insert_by le) [] l.
+
+End VecMore.
+
+(* ---- Vector<f64> only (vec_f64.rs): over an SArith, with the two non-IEEE-primitive calls as parameters ----
+     fabs : the INHERENT f64::abs (clears the sign bit: |-0.0| = +0.0), which is what `self.vec[i].abs()` resolves
+            to in vec_f64.rs -- not Signed::abs of traits.rs (`if x < 0 {-x} else {x}`, which keeps -0.0);
+     powf : libm pow.  To run the model the driver supplies the table of the calls (python's math.pow is the same
+            libm); the theorems are over R where powf x 2 is not needed: norm_2's `powf(|x|, 2.0)` is modelled as
+            |x|*|x| (what a correctly rounded pow returns; LLVM folds pow(x,2.0) to x*x as well) -- tied by tolerance. *)
+From OV Require Import Model.Complex.
+Section Vec64.
+Context {F : SArith}.
+Variable fabs : F -> F.
+Variable powf : F -> F -> F.
+Local Open Scope arith_scope.
+
+(* linspace (vec_f64.rs:8-15): h = (b-a)/((size as f64) - 1.0); vec[i] = a + h*(i as f64) *)
+Definition linspace (a b : F) (n : nat) : res (list F) :=
+  let* h := div (b - a) (of_nat n - one) in
+  Ok (map (fun i => a + h * of_nat i) (seq 0 n)).
+
+(* powspace (vec_f64.rs:20-26): vec[i] = a + (b-a)*powf((i as f64)/((size as f64)-1.0), p) *)
+Definition powspace (a b : F) (n : nat) (p : F) : res (list F) :=
+  mapM (fun i => let* x := div (of_nat i) (of_nat n - one) in Ok (a + (b - a) * powf x p)) (seq 0 n).
+
+(* norm_2 (vec_f64.rs:30-36) *)
+Definition norm_2 (v : list F) : F :=
+  sqrt (fold_left (fun acc x => acc + fabs x * fabs x) v zero).
+
+(* norm_p (vec_f64.rs:41-47): powf(sum powf(|x|,p), 1.0/p) *)
+Definition norm_p (v : list F) (p : F) : res F :=
+  let* ip := div one p in
+  Ok (powf (fold_left (fun acc x => acc + powf (fabs x) p) v zero) ip).
+
+(* norm_inf (vec_f64.rs:51-59): result = |v[0]| (index panic when empty); for i in 1..size: if result < |v[i]| ... *)
+Definition norm_inf (v : list F) : res F :=
+  let* x0 := rd v 0 in
+  Ok (fold_left (fun r x => if ltb r (fabs x) then fabs x else r) (skipn 1 v) (fabs x0)).
+
+(* ---- Vector<Complex<T>> (vec_cmplx.rs) ---- *)
+Definition vconj (v : list (cplx F)) : list (cplx F) := map conj v.
+Definition vreal (v : list (cplx F)) : list F := map (@re F) v.
+(* Complex<f64>::abs = sqrt(abs_sqr) (complex/mod.rs:270) *)
+Definition cabs (z : cplx F) : F := sqrt (abs_sqr z).
+Definition cnorm_inf (v : list (cplx F)) : res F :=
+  let* z0 := rd v 0 in
+  Ok (fold_left (fun r z => if ltb r (cabs z) then cabs z else r) (skipn 1 v) (cabs z0)).
+
+End Vec64.
